@@ -185,6 +185,21 @@ func run[T signal.SignalTypes](c *Case) (res kit.Result) {
 			res.Failf("%s: parent header %+v, want %+v", what, parentHdr, want)
 			return
 		}
+		// other windows of the same parent, taken just before: one with the bounds of the next
+		// step (a nested window must not be confused with an earlier sibling of its parent)
+		// and one with the same bounds as this step (a second, independent header)
+		if si+1 < len(c.Steps) {
+			nx := c.Steps[si+1]
+			if 0 <= nx.S && nx.S <= nx.E && nx.E <= cp {
+				_ = cur.Slice(nx.S, nx.E)
+			}
+		}
+		if 0 <= st.S && st.S <= st.E && st.E <= cp {
+			twin := cur.Slice(st.S, st.E)
+			if twin.Len() > 0 {
+				twin = twin.Slice(0, 0) // use it a little, then drop it
+			}
+		}
 		var child *signal.Buffer[T]
 		panicked, pv := kit.Try(func() { child = cur.Slice(st.S, st.E) })
 		valid := 0 <= st.S && st.S <= st.E && st.E <= cp
